@@ -37,7 +37,7 @@ func repoRoot() string {
 // loadPkg parses the non-test files of dir and type-checks them with the source importer (offline: the
 // dependencies are in the module cache; the importer resolves them relative to the process's cwd,
 // which therefore has to be inside the module).
-func loadPkg(dir string) *Pkg {
+func loadPkg(dir string, importPath string) *Pkg {
 	if err := os.Chdir(repoRoot()); err != nil {
 		fatal("chdir %s: %v", repoRoot(), err)
 	}
@@ -67,7 +67,8 @@ func loadPkg(dir string) *Pkg {
 		}
 		var terrs []string
 		conf := types.Config{Importer: importer.ForCompiler(fset, "source", nil), Error: func(e error) { terrs = append(terrs, e.Error()) }}
-		tp, _ := conf.Check(name, fset, p.Files, p.Info)
+		_ = name
+		tp, _ := conf.Check(importPath, fset, p.Files, p.Info)
 		if len(terrs) > 0 {
 			fatal("type-checking %s failed:\n%s", dir, strings.Join(terrs, "\n"))
 		}
